@@ -237,7 +237,8 @@ def run_jobs(jobs, workers=None):
     workers = workers or NCPU
     results = []
     with concurrent.futures.ThreadPoolExecutor(max_workers=workers) as ex:
-        futs = {ex.submit(run_job, j): j for j in jobs}
+        # long single queries first, so that they overlap with the many short ones
+        futs = {ex.submit(run_job, j): j for j in sorted(jobs, key=lambda j: -getattr(j, 'weight', 0))}
         for f in concurrent.futures.as_completed(futs):
             results.append(f.result())
     order = {j.name: i for i, j in enumerate(jobs)}
@@ -427,6 +428,18 @@ TRUSTED_BASE = [
     'assumed interface contract of the pure-virtual AbstractFile::read/write/seekg/tellg (contracts/af_*.h)',
     'x86-64 little-endian data layout, sizeof as on gcc 12',
 ]
+
+
+def borrow(job, frm, to):
+    """re-use an obligation set of property `frm` inside the check of property `to`: the callee contract that `to`'s
+       argument rests on is discharged (and a change that breaks it reported) under `to` as well; labels become
+       to/via-frm/..."""
+    import copy
+    j = copy.copy(job)
+    j.name = ('%s_via%s_' % (to, frm)) + (job.name[len(frm) + 1:] if job.name.startswith(frm + '_') else job.name)
+    j.source = job.source.replace('"%s/' % frm, '"%s/via-%s/' % (to, frm))
+    j.labels = {k: ('%s/via-%s' % (to, v) if v.startswith(frm + '/') else v) for k, v in (job.labels or {}).items()}
+    return j
 
 
 def keep_property(results, prop):
